@@ -95,4 +95,11 @@ CHECKS.update({
 })
 CHECKS["C11"]["text"] += " (b) The real fix-only pipeline runs on lists/tuples/dicts/constructor calls whose previous elements are hand-written expressions (some wrapped in Is()): the solver confirms that every element of the equal common prefix and suffix, and every equal entry under a surviving key/keyword, keeps its source text verbatim while the value read back is the observed one."
 CHECKS["C11"]["note"] += " (b) sequences <=3/<=3 (thorough 4/4), 6 keyed shapes."
+CHECKS.update({
+    "C17": {
+        "text": "D-core runs in which the compared object ([x0, [x1]] or {1: [x0]}, symbolic ints) is mutated by the test after the assertion or between two assertions of the same object (7 list and 5 dict mutations, operands symbolic) for ==, <=, >=, in and [key]; the solver confirms on every path that the value read back from the rewritten text equals the harness's own copy taken at comparison time (max/min/members over the copies); a value whose deep copy compares unequal (symbolic bool) raises UsageError exactly then.",
+        "note": "Bound: depth-2 values, one mutation per run, create and fix. Custom __deepcopy__ outside.",
+        "technique": "symbolic execution (CrossHair + z3) of the real value classes with post-comparison mutation; read-back oracle",
+    },
+})
 NOT_APPLICABLE = {}
